@@ -1,4 +1,6 @@
 import ParryModel.C13.Lemmas
+import Mathlib.Analysis.SpecialFunctions.Integrals.Basic
+import Mathlib.Analysis.SpecialFunctions.Sqrt
 /-!
 # C13 property theorems: mass properties.
 -/
@@ -196,7 +198,7 @@ theorem sum_moments (hs : LawfulSqrt sq) (ps : List (MP2 K)) (h : ∀ a ∈ ps, 
     rw [list_parallel_axis_com ps p ⟨totFx ps / totMass ps, totFy ps / totMass ps⟩ (by field_simp) (by field_simp)]
 
 /-- moments of the family of (corrected) `from_triangle` parts of a triangle list -/
-theorem parts_tot (hs : LawfulSqrt sq) (ρ : K) (hρ : 0 ≤ ρ) (ts : List (Triangle2 K)) (c : V2 K) :
+private theorem parts_tot (hs : LawfulSqrt sq) (ρ : K) (hρ : 0 ≤ ρ) (ts : List (Triangle2 K)) (c : V2 K) :
     letI := fieldNum K sq
     totMass (ts.map (fromTriangle ρ)) = (ts.map triArea).sum * ρ ∧
     totFx (ts.map (fromTriangle ρ)) = (ts.map fun t => (triCenter t).x * triArea t).sum * ρ ∧
@@ -215,7 +217,7 @@ theorem parts_tot (hs : LawfulSqrt sq) (ρ : K) (hρ : 0 ≤ ρ) (ts : List (Tri
     refine ⟨by ring, by ring, by ring, ?_⟩
     linear_combination (-(@triArea K (fieldNum K sq) a) * ρ) * e
 
-theorem parts_invMass_nonneg (hs : LawfulSqrt sq) (ρ : K) (hρ : 0 ≤ ρ) (ts : List (Triangle2 K)) :
+private theorem parts_invMass_nonneg (hs : LawfulSqrt sq) (ρ : K) (hρ : 0 ≤ ρ) (ts : List (Triangle2 K)) :
     ∀ a ∈ ts.map (@fromTriangle K (fieldNum K sq) ρ), 0 ≤ a.invMass := by
   intro a ha
   simp only [List.mem_map] at ha
@@ -360,7 +362,7 @@ theorem add_invMass_nonneg (a b : MP2 K) (ha : 0 ≤ a.invMass) (hb : 0 ≤ b.in
     have := inv_nonneg.2 ha; have := inv_nonneg.2 hb
     positivity
 
-theorem sameMoments_of (a b : MP2 K) (h1 : massOf a = massOf b) (h2 : a.com.x * massOf a = b.com.x * massOf b)
+private theorem sameMoments_of (a b : MP2 K) (h1 : massOf a = massOf b) (h2 : a.com.x * massOf a = b.com.x * massOf b)
     (h3 : a.com.y * massOf a = b.com.y * massOf b) (h4 : ∀ p, momentAbout a p = momentAbout b p) : SameMoments a b :=
   ⟨h1, h2, h3, h4⟩
 
@@ -466,7 +468,7 @@ theorem sum_eq_fold_add (hs : LawfulSqrt sq) (ps : List (MP2 K)) (h : ∀ a ∈ 
     intro p; simp [momentAbout, massOf, inertiaOf, MP2.zero]
   refine ⟨by rw [s1, f1, z1]; ring, by rw [s2, f2, z1]; ring, by rw [s3, f3, z1]; ring, fun p => by rw [s4, f4, z2]; ring⟩
 
-theorem foldl_polyAcc (gc : V2 K) (es : List (V2 K × V2 K)) (acc : V2 K × K) :
+private theorem foldl_polyAcc (gc : V2 K) (es : List (V2 K × V2 K)) (acc : V2 K × K) :
     letI := fieldNum K sq
     (es.foldl (polyAcc gc) acc).2 = acc.2 + (es.map fun e => triArea ⟨e.1, e.2, gc⟩).sum ∧
     (es.foldl (polyAcc gc) acc).1.x = acc.1.x + (es.map fun e => (triCenter ⟨e.1, e.2, gc⟩).x * triArea ⟨e.1, e.2, gc⟩).sum ∧
@@ -481,7 +483,7 @@ theorem foldl_polyAcc (gc : V2 K) (es : List (V2 K × V2 K)) (acc : V2 K × K) :
     simp only [polyAcc, triangle_center_eq, V2.add, V2.smul, V2.sdiv, fieldNum_lit, h3]
     refine ⟨by ring, by ring, by ring⟩
 
-theorem foldl_polyAcc0 (gc : V2 K) (es : List (V2 K × V2 K)) :
+private theorem foldl_polyAcc0 (gc : V2 K) (es : List (V2 K × V2 K)) :
     letI := fieldNum K sq
     (es.foldl (polyAcc gc) (V2.zero, 0)).2 = (es.map fun e => triArea ⟨e.1, e.2, gc⟩).sum ∧
     (es.foldl (polyAcc gc) (V2.zero, 0)).1.x = (es.map fun e => (triCenter ⟨e.1, e.2, gc⟩).x * triArea ⟨e.1, e.2, gc⟩).sum ∧
@@ -490,7 +492,7 @@ theorem foldl_polyAcc0 (gc : V2 K) (es : List (V2 K × V2 K)) :
   simpa [V2.zero] using this
 
 /-- moments of a fan of (corrected) `from_triangle` parts with common first vertex `c`, about `c` -/
-theorem fan_tot (hs : LawfulSqrt sq) (ρ : K) (hρ : 0 ≤ ρ) (c : V2 K) (es : List (V2 K × V2 K)) :
+private theorem fan_tot (hs : LawfulSqrt sq) (ρ : K) (hρ : 0 ≤ ρ) (c : V2 K) (es : List (V2 K × V2 K)) :
     letI := fieldNum K sq
     totMoment (es.map fun e => fromTriangle ρ ⟨c, e.1, e.2⟩) c =
       (es.map fun e => triUnitInertia ⟨c, e.1, e.2⟩ * triArea ⟨c, e.1, e.2⟩).sum * ρ := by
@@ -506,7 +508,7 @@ theorem fan_tot (hs : LawfulSqrt sq) (ρ : K) (hρ : 0 ≤ ρ) (c : V2 K) (es : 
     linear_combination (-(@triArea K (fieldNum K sq) ⟨c, a.1, a.2⟩) * ρ) * e
 
 /-- moments of the family of `from_triangle` parts of a fan `(v_i, v_{i+1}, g)` -/
-theorem fanG_tot (hs : LawfulSqrt sq) (ρ : K) (hρ : 0 ≤ ρ) (g : V2 K) (es : List (V2 K × V2 K)) :
+private theorem fanG_tot (hs : LawfulSqrt sq) (ρ : K) (hρ : 0 ≤ ρ) (g : V2 K) (es : List (V2 K × V2 K)) :
     letI := fieldNum K sq
     totMass (es.map fun e => fromTriangle ρ ⟨e.1, e.2, g⟩) = (es.map fun e => triArea ⟨e.1, e.2, g⟩).sum * ρ ∧
     totFx (es.map fun e => fromTriangle ρ ⟨e.1, e.2, g⟩) = (es.map fun e => (triCenter ⟨e.1, e.2, g⟩).x * triArea ⟨e.1, e.2, g⟩).sum * ρ ∧
@@ -665,5 +667,420 @@ theorem from_convex_polygon_unfold (ρ : K) (first : V2 K) (rest : List (V2 K)) 
       some (fromConvexPolygonCore ρ (polyAreaComCore (polyGc (first :: rest)) (cyclicPairs first (first :: rest)))
         (cyclicPairs first (first :: rest))) ∧
     fromConvexPolygon ρ ([] : List (V2 K)) = none := ⟨rfl, rfl⟩
+
+/-- `MassProperties::new` / `mass()` / `principal_inertia()` round-trip (2-D), for a non-negative inertia. -/
+theorem new_roundtrip (hs : LawfulSqrt sq) (c : V2 K) (m i : K) (hi : 0 ≤ i) :
+    letI := fieldNum K sq
+    (MP2.new c m i).mass = m ∧ (MP2.new c m i).principalInertia = i ∧ (MP2.new c m i).com = c ∧
+    massOf (MP2.new c m i) = m ∧ inertiaOf (MP2.new c m i) = i := by
+  simp only [MP2.new, MP2.mass, MP2.principalInertia, massOf, inertiaOf, inv_spec, inv_inv, fieldNum_sqrt,
+    sqrt_roundtrip sq hs i hi, and_self]
+
+/-- **cuboid (2-D)**: `from_cuboid` has mass `ρ·(2hx)(2hy)`, centre of mass at the origin and inertia `mass·(hx²+hy²)/3`. -/
+theorem cuboid2_spec (hs : LawfulSqrt sq) (ρ : K) (he : V2 K) (hρ : 0 ≤ ρ) (hx : 0 ≤ he.x) (hy : 0 ≤ he.y) :
+    letI := fieldNum K sq
+    massOf (fromCuboid2 ρ he) = ρ * (2 * he.x) * (2 * he.y) ∧
+    (fromCuboid2 ρ he).com = ⟨0, 0⟩ ∧
+    inertiaOf (fromCuboid2 ρ he) = ρ * (2 * he.x) * (2 * he.y) * ((he.x ^ 2 + he.y ^ 2) / 3) := by
+  have h3 : ((mkRat 3 1 : ℚ) : K) = 3 := by norm_num
+  have h4 : ((mkRat 4 1 : ℚ) : K) = 4 := by norm_num
+  have hI : 0 ≤ (he.x * he.x / 3 + he.y * he.y / 3) * (he.x * he.y * 4 * ρ) := by positivity
+  simp only [fromCuboid2, cuboidVolInertia2, fieldNum_lit, h3, h4]
+  obtain ⟨_, _, r3, r4, r5⟩ := new_roundtrip sq hs (@V2.zero K (fieldNum K sq)) (he.x * he.y * 4 * ρ) _ hI
+  rw [r4, r5]
+  refine ⟨by ring, rfl, by ring⟩
+
+/-- **disc (2-D ball)**: mass `ρ·π r²`, inertia `mass·r²/2` (for any value of the constant `π ≥ 0`). -/
+theorem ball2_spec (hs : LawfulSqrt sq) (pi ρ r : K) (hpi : 0 ≤ pi) (hρ : 0 ≤ ρ) :
+    letI := fieldNum K sq
+    massOf (fromBall2 pi ρ r) = ρ * (pi * r ^ 2) ∧ (fromBall2 pi ρ r).com = ⟨0, 0⟩ ∧
+    inertiaOf (fromBall2 pi ρ r) = ρ * (pi * r ^ 2) * (r ^ 2 / 2) := by
+  have hI : 0 ≤ r * r / 2 * (pi * r * r * ρ) := by
+    have : 0 ≤ r * r := mul_self_nonneg r
+    have : pi * r * r = pi * (r * r) := by ring
+    rw [this]; positivity
+  simp only [fromBall2, ballVolInertia2, fieldNum_two]
+  obtain ⟨_, _, r3, r4, r5⟩ := new_roundtrip sq hs (@V2.zero K (fieldNum K sq)) (pi * r * r * ρ) _ hI
+  rw [r4, r5]
+  refine ⟨by ring, rfl, by ring⟩
+
+/-- **tessellation agreement, rectangle (the 2×6 box regression, for every size)**: the corrected 2-D `from_trimesh` of
+the rectangle `[0,w]×[0,h]` cut into the two triangles `(v0,v1,v2)`, `(v0,v2,v3)` from its corner has mass `ρwh`, centre of
+mass `(w/2, h/2)` and inertia `ρ w h (w²+h²)/12` — the values of `from_cuboid(ρ, (w/2, h/2))`. -/
+theorem trimesh_rectangle (hs : LawfulSqrt sq) (ρ w h : K) (hρ : 0 < ρ) (hw : 0 < w) (hh : 0 < h) :
+    letI := fieldNum K sq
+    let ts : List (Triangle2 K) := [⟨⟨0, 0⟩, ⟨w, 0⟩, ⟨w, h⟩⟩, ⟨⟨0, 0⟩, ⟨w, h⟩, ⟨0, h⟩⟩]
+    massOf (fromTrimeshTris ρ ts) = ρ * (w * h) ∧
+    (fromTrimeshTris ρ ts).com = ⟨w / 2, h / 2⟩ ∧
+    inertiaOf (fromTrimeshTris ρ ts) = ρ * (w * h) * ((w ^ 2 + h ^ 2) / 12) ∧
+    massOf (fromTrimeshTris ρ ts) = massOf (fromCuboid2 ρ ⟨w / 2, h / 2⟩) ∧
+    inertiaOf (fromTrimeshTris ρ ts) = inertiaOf (fromCuboid2 ρ ⟨w / 2, h / 2⟩) := by
+  intro ts
+  have hwh : 0 < w * h := mul_pos hw hh
+  obtain ⟨m1, m2, m3, m4⟩ := trimesh_moments sq hs ρ hρ.le ts
+  have c1 : cross (⟨⟨0, 0⟩, ⟨w, 0⟩, ⟨w, h⟩⟩ : Triangle2 K) = w * h := by simp [cross]
+  have c2 : cross (⟨⟨0, 0⟩, ⟨w, h⟩, ⟨0, h⟩⟩ : Triangle2 K) = w * h := by simp [cross]
+  obtain ⟨a1, a2, a3⟩ := from_triangle_spec sq hs ρ hρ (⟨⟨0, 0⟩, ⟨w, 0⟩, ⟨w, h⟩⟩ : Triangle2 K) (by rw [c1]; exact hwh.ne')
+  obtain ⟨b1, b2, b3⟩ := from_triangle_spec sq hs ρ hρ (⟨⟨0, 0⟩, ⟨w, h⟩, ⟨0, h⟩⟩ : Triangle2 K) (by rw [c2]; exact hwh.ne')
+  rw [c1, abs_of_pos hwh] at a1 a3
+  rw [c2, abs_of_pos hwh] at b1 b3
+  simp only [sumSqSides] at a3 b3
+  simp only [ts, totMass, totFx, totFy, totMoment, List.map_cons, List.map_nil, List.sum_cons, List.sum_nil, momentAbout,
+    a1, a2, a3, b1, b2, b3, add_zero] at m1 m2 m3 m4
+  have hM : massOf (@fromTrimeshTris K (fieldNum K sq) ρ ts) = ρ * (w * h) := by rw [m1]; ring
+  have hM0 : ρ * (w * h) ≠ 0 := (mul_pos hρ hwh).ne'
+  have hcx : (@fromTrimeshTris K (fieldNum K sq) ρ ts).com.x = w / 2 := by
+    rw [hM] at m2
+    have : (@fromTrimeshTris K (fieldNum K sq) ρ ts).com.x * (ρ * (w * h)) = w / 2 * (ρ * (w * h)) := by rw [m2]; ring
+    exact mul_right_cancel₀ hM0 this
+  have hcy : (@fromTrimeshTris K (fieldNum K sq) ρ ts).com.y = h / 2 := by
+    rw [hM] at m3
+    have : (@fromTrimeshTris K (fieldNum K sq) ρ ts).com.y * (ρ * (w * h)) = h / 2 * (ρ * (w * h)) := by rw [m3]; ring
+    exact mul_right_cancel₀ hM0 this
+  have hI : inertiaOf (@fromTrimeshTris K (fieldNum K sq) ρ ts) = ρ * (w * h) * ((w ^ 2 + h ^ 2) / 12) := by
+    have := m4 (@fromTrimeshTris K (fieldNum K sq) ρ ts).com
+    simp only [momentAbout, sub_self] at this
+    rw [hcx, hcy] at this
+    linear_combination this
+  obtain ⟨q1, _, q3⟩ := cuboid2_spec sq hs ρ ⟨w / 2, h / 2⟩ hρ.le (by positivity) (by positivity)
+  refine ⟨hM, ?_, hI, ?_, ?_⟩
+  · rcases hc : (@fromTrimeshTris K (fieldNum K sq) ρ ts).com with ⟨x, y⟩
+    rw [hc] at hcx hcy; simp only at hcx hcy; rw [hcx, hcy]
+  · rw [hM, q1]; ring
+  · rw [hI, q3]; ring
+
+/-- **2-D capsule (stadium)**, corrected: with `H = |b - a|`, mass `ρ(2rH + πr²)`, centre of mass at the midpoint, inertia
+`ρ(2rH(4r²+H²)/12 + πr⁴/2 + πr²H²/4 + 4Hr³/3)` = rectangle `2r×H` + two half-discs whose centroids sit `4r/(3π)` beyond
+the rectangle (for any constant `π > 0`). -/
+theorem capsule2_spec (hs : LawfulSqrt sq) (pi ρ r : K) (a b : V2 K) (hpi : 0 < pi) (hρ : 0 ≤ ρ) (hr : 0 ≤ r) :
+    letI := fieldNum K sq
+    let H := sq ((b.x - a.x) * (b.x - a.x) + (b.y - a.y) * (b.y - a.y))
+    massOf (fromCapsule2 pi ρ a b r) = ρ * (2 * r * H + pi * r ^ 2) ∧
+    (fromCapsule2 pi ρ a b r).com = ⟨(a.x + b.x) / 2, (a.y + b.y) / 2⟩ ∧
+    inertiaOf (fromCapsule2 pi ρ a b r) =
+      ρ * (2 * r * H * (4 * r ^ 2 + H ^ 2) / 12 + pi * r ^ 4 / 2 + pi * r ^ 2 * H ^ 2 / 4 + 4 * H * r ^ 3 / 3) := by
+  intro H
+  have hH : 0 ≤ H := hs.nonneg _ (add_nonneg (mul_self_nonneg _) (mul_self_nonneg _))
+  have h3 : ((mkRat 3 1 : ℚ) : K) = 3 := by norm_num
+  have h4 : ((mkRat 4 1 : ℚ) : K) = 4 := by norm_num
+  have h14 : ((mkRat 1 4 : ℚ) : K) = 1 / 4 := by norm_num
+  have h12 : ((mkRat 1 2 : ℚ) : K) = 1 / 2 := by norm_num
+  simp only [fromCapsule2, cuboidVolInertia2, ballVolInertia2, fieldNum_lit, fieldNum_two, h3, h4, h14, h12, V2.norm, V2.normSq,
+    V2.dot, V2.sub, V2.center, V2.add, V2.smul, fieldNum_sqrt]
+  rw [show sq ((b.x - a.x) * (b.x - a.x) + (b.y - a.y) * (b.y - a.y)) = H from rfl]
+  have hI : 0 ≤ ((r * r / 3 + H / 2 * (H / 2) / 3) * (r * (H / 2) * 4) + r * r / 2 * (pi * r * r)) * ρ
+      + (H / 2 * 2 * (H / 2 * 2) * (1 / 4) + H / 2 * 2 * r * 4 / (3 * pi)) * (pi * r * r) * ρ := by
+    have : pi * r * r = pi * (r * r) := by ring
+    rw [this]; positivity
+  obtain ⟨_, _, r3, r4, r5⟩ := new_roundtrip sq hs (⟨(a.x + b.x) * (1 / 2), (a.y + b.y) * (1 / 2)⟩ : V2 K)
+    ((r * (H / 2) * 4 + pi * r * r) * ρ) _ hI
+  rw [r4, r5]
+  refine ⟨by ring, ?_, ?_⟩
+  · rw [r3]; congr 1 <;> ring
+  · field_simp; ring
+
+/-- the pinned 2-D `from_capsule` (hemisphere offset `3r/8`) differs from the stadium by `ρ H r³ (4/3 − 3π/8)`:
+an under-estimate for the real `π < 32/9`. -/
+theorem capsule2_pinned_deficit (hs : LawfulSqrt sq) (pi ρ r : K) (a b : V2 K) (hpi : 0 < pi) (hρ : 0 ≤ ρ) (hr : 0 ≤ r) :
+    letI := fieldNum K sq
+    let H := sq ((b.x - a.x) * (b.x - a.x) + (b.y - a.y) * (b.y - a.y))
+    inertiaOf (fromCapsule2 pi ρ a b r) - inertiaOf (fromCapsule2Pinned pi ρ a b r) = ρ * H * r ^ 3 * (4 / 3 - 3 * pi / 8) := by
+  intro H
+  obtain ⟨_, _, c3⟩ := capsule2_spec sq hs pi ρ r a b hpi hρ hr
+  rw [c3]
+  have hH : 0 ≤ H := hs.nonneg _ (add_nonneg (mul_self_nonneg _) (mul_self_nonneg _))
+  have h3 : ((mkRat 3 1 : ℚ) : K) = 3 := by norm_num
+  have h4 : ((mkRat 4 1 : ℚ) : K) = 4 := by norm_num
+  have h8 : ((mkRat 8 1 : ℚ) : K) = 8 := by norm_num
+  have h14 : ((mkRat 1 4 : ℚ) : K) = 1 / 4 := by norm_num
+  have h12 : ((mkRat 1 2 : ℚ) : K) = 1 / 2 := by norm_num
+  simp only [fromCapsule2Pinned, cuboidVolInertia2, ballVolInertia2, fieldNum_lit, fieldNum_two, h3, h4, h8, h14, h12, V2.norm, V2.normSq,
+    V2.dot, V2.sub, V2.center, V2.add, V2.smul, fieldNum_sqrt]
+  rw [show sq ((b.x - a.x) * (b.x - a.x) + (b.y - a.y) * (b.y - a.y)) = H from rfl]
+  have hI : 0 ≤ ((r * r / 3 + H / 2 * (H / 2) / 3) * (r * (H / 2) * 4) + r * r / 2 * (pi * r * r)) * ρ
+      + (H / 2 * 2 * (H / 2 * 2) * (1 / 4) + H / 2 * 2 * r * 3 / 8) * (pi * r * r) * ρ := by
+    have : pi * r * r = pi * (r * r) := by ring
+    rw [this]; positivity
+  obtain ⟨_, _, _, _, r5⟩ := new_roundtrip sq hs (⟨(a.x + b.x) * (1 / 2), (a.y + b.y) * (1 / 2)⟩ : V2 K)
+    ((r * (H / 2) * 4 + pi * r * r) * ρ) _ hI
+  rw [r5]; ring
+
+/-- **ball (3-D)**: mass `ρ·4/3 π r³`, the three principal inertias `mass·2r²/5`, centre at the origin, identity frame. -/
+theorem ball3_spec (hs : LawfulSqrt sq) (pi ρ r : K) (hpi : 0 ≤ pi) (hρ : 0 ≤ ρ) (hr : 0 ≤ r) :
+    letI := fieldNum K sq
+    massOf3 (fromBall3 pi ρ r) = ρ * (4 / 3 * pi * r ^ 3) ∧
+    inertiaOf3 (fromBall3 pi ρ r) = ⟨ρ * (4 / 3 * pi * r ^ 3) * (2 / 5 * r ^ 2), ρ * (4 / 3 * pi * r ^ 3) * (2 / 5 * r ^ 2),
+      ρ * (4 / 3 * pi * r ^ 3) * (2 / 5 * r ^ 2)⟩ ∧
+    (fromBall3 pi ρ r).com = ⟨0, 0, 0⟩ ∧ (fromBall3 pi ρ r).frame = ⟨0, 0, 0, 1⟩ := by
+  have h3 : ((mkRat 3 1 : ℚ) : K) = 3 := by norm_num
+  have h4 : ((mkRat 4 1 : ℚ) : K) = 4 := by norm_num
+  have h5 : ((mkRat 5 1 : ℚ) : K) = 5 := by norm_num
+  simp only [fromBall3, ballVolInertia3, MP3.new, V3.smul, fieldNum_lit, fieldNum_two, h3, h4, h5]
+  have hI : 0 ≤ r * r * 2 / 5 * (pi * r * r * r * 4 / 3 * ρ) := by positivity
+  obtain ⟨w1, w2, w3, w4⟩ := withFrame_obs sq hs (@V3.zero K (fieldNum K sq)) (pi * r * r * r * 4 / 3 * ρ)
+    ⟨r * r * 2 / 5 * (pi * r * r * r * 4 / 3 * ρ), r * r * 2 / 5 * (pi * r * r * r * 4 / 3 * ρ), r * r * 2 / 5 * (pi * r * r * r * 4 / 3 * ρ)⟩
+    (@Quat.identity K (fieldNum K sq)) hI hI hI
+  rw [w1, w2, w3, w4]
+  refine ⟨by ring, ?_, rfl, rfl⟩
+  congr 1 <;> ring
+
+/-- **cuboid (3-D)**: mass `ρ·8 hx hy hz`, principal inertias `mass·(hy²+hz²)/3, mass·(hx²+hz²)/3, mass·(hx²+hy²)/3`. -/
+theorem cuboid3_spec (hs : LawfulSqrt sq) (ρ : K) (he : V3 K) (hρ : 0 ≤ ρ) (hx : 0 ≤ he.x) (hy : 0 ≤ he.y) (hz : 0 ≤ he.z) :
+    letI := fieldNum K sq
+    let m := ρ * (8 * he.x * he.y * he.z)
+    massOf3 (fromCuboid3 ρ he) = m ∧
+    inertiaOf3 (fromCuboid3 ρ he) = ⟨m * ((he.y ^ 2 + he.z ^ 2) / 3), m * ((he.x ^ 2 + he.z ^ 2) / 3), m * ((he.x ^ 2 + he.y ^ 2) / 3)⟩ ∧
+    (fromCuboid3 ρ he).com = ⟨0, 0, 0⟩ ∧ (fromCuboid3 ρ he).frame = ⟨0, 0, 0, 1⟩ := by
+  intro m
+  have h3 : ((mkRat 3 1 : ℚ) : K) = 3 := by norm_num
+  have h8 : ((mkRat 8 1 : ℚ) : K) = 8 := by norm_num
+  simp only [fromCuboid3, cuboidVolInertia3, MP3.new, V3.smul, fieldNum_lit, h3, h8]
+  obtain ⟨w1, w2, w3, w4⟩ := withFrame_obs sq hs (@V3.zero K (fieldNum K sq)) (he.x * he.y * he.z * 8 * ρ)
+    ⟨(he.y * he.y / 3 + he.z * he.z / 3) * (he.x * he.y * he.z * 8 * ρ), (he.x * he.x / 3 + he.z * he.z / 3) * (he.x * he.y * he.z * 8 * ρ),
+     (he.x * he.x / 3 + he.y * he.y / 3) * (he.x * he.y * he.z * 8 * ρ)⟩
+    (@Quat.identity K (fieldNum K sq)) (by positivity) (by positivity) (by positivity)
+  rw [w1, w2, w3, w4]
+  refine ⟨by simp only [m]; ring, ?_, rfl, rfl⟩
+  simp only [m]
+  congr 1 <;> ring
+
+/-- **cylinder**: mass `ρ·π r²·2hh`, axial inertia `mass·r²/2`, transverse `mass·(3r² + (2hh)²)/12`. -/
+theorem cylinder_spec (hs : LawfulSqrt sq) (pi ρ hh r : K) (hpi : 0 ≤ pi) (hρ : 0 ≤ ρ) (hh0 : 0 ≤ hh) (hr : 0 ≤ r) :
+    letI := fieldNum K sq
+    let m := ρ * (pi * r ^ 2 * (2 * hh))
+    massOf3 (fromCylinder pi ρ hh r) = m ∧
+    inertiaOf3 (fromCylinder pi ρ hh r) = ⟨m * ((3 * r ^ 2 + (2 * hh) ^ 2) / 12), m * (r ^ 2 / 2), m * ((3 * r ^ 2 + (2 * hh) ^ 2) / 12)⟩ ∧
+    (fromCylinder pi ρ hh r).com = ⟨0, 0, 0⟩ ∧ (fromCylinder pi ρ hh r).frame = ⟨0, 0, 0, 1⟩ := by
+  intro m
+  have h3 : ((mkRat 3 1 : ℚ) : K) = 3 := by norm_num
+  have h4 : ((mkRat 4 1 : ℚ) : K) = 4 := by norm_num
+  have h12 : ((mkRat 12 1 : ℚ) : K) = 12 := by norm_num
+  simp only [fromCylinder, cylinderVolInertia, V3.smul, fieldNum_lit, fieldNum_two, h3, h4, h12]
+  obtain ⟨w1, w2, w3, w4⟩ := withFrame_obs sq hs (@V3.zero K (fieldNum K sq)) (hh * r * r * pi * 2 * ρ)
+    ⟨(r * r * 3 + hh * hh * 4) / 12 * (hh * r * r * pi * 2 * ρ), r * r / 2 * (hh * r * r * pi * 2 * ρ),
+     (r * r * 3 + hh * hh * 4) / 12 * (hh * r * r * pi * 2 * ρ)⟩
+    (@Quat.identity K (fieldNum K sq)) (by positivity) (by positivity) (by positivity)
+  rw [w1, w2, w3, w4]
+  refine ⟨by simp only [m]; ring, ?_, rfl, rfl⟩
+  simp only [m]
+  congr 1 <;> ring
+
+/-- **cone** (apex at `+hh`, base at `-hh`): mass `ρ·π r²·(2hh)/3`, centre of mass at `y = -hh/2`, axial inertia
+`mass·3r²/10`, transverse inertia about the centre of mass `mass·(3r²/20 + 3(2hh)²/80)`. -/
+theorem cone_spec (hs : LawfulSqrt sq) (pi ρ hh r : K) (hpi : 0 ≤ pi) (hρ : 0 ≤ ρ) (hh0 : 0 ≤ hh) (hr : 0 ≤ r) :
+    letI := fieldNum K sq
+    let m := ρ * (pi * r ^ 2 * (2 * hh) / 3)
+    massOf3 (fromCone pi ρ hh r) = m ∧
+    inertiaOf3 (fromCone pi ρ hh r) = ⟨m * (3 * r ^ 2 / 20 + 3 * (2 * hh) ^ 2 / 80), m * (3 * r ^ 2 / 10), m * (3 * r ^ 2 / 20 + 3 * (2 * hh) ^ 2 / 80)⟩ ∧
+    (fromCone pi ρ hh r).com = ⟨0, -hh / 2, 0⟩ ∧ (fromCone pi ρ hh r).frame = ⟨0, 0, 0, 1⟩ := by
+  intro m
+  have h3 : ((mkRat 3 1 : ℚ) : K) = 3 := by norm_num
+  have h4 : ((mkRat 4 1 : ℚ) : K) = 4 := by norm_num
+  have h10 : ((mkRat 10 1 : ℚ) : K) = 10 := by norm_num
+  have h20 : ((mkRat 20 1 : ℚ) : K) = 20 := by norm_num
+  have h80 : ((mkRat 80 1 : ℚ) : K) = 80 := by norm_num
+  simp only [fromCone, coneVolInertia, V3.smul, fieldNum_lit, fieldNum_two, h3, h4, h10, h20, h80]
+  obtain ⟨w1, w2, w3, w4⟩ := withFrame_obs sq hs (⟨0, -hh / 2, 0⟩ : V3 K) (r * r * pi * hh * 2 / 3 * ρ)
+    ⟨(r * r * 3 / 20 + hh * hh * 4 * 3 / 80) * (r * r * pi * hh * 2 / 3 * ρ), r * r * 3 / 10 * (r * r * pi * hh * 2 / 3 * ρ),
+     (r * r * 3 / 20 + hh * hh * 4 * 3 / 80) * (r * r * pi * hh * 2 / 3 * ρ)⟩
+    (@Quat.identity K (fieldNum K sq)) (by positivity) (by positivity) (by positivity)
+  rw [w1, w2, w3, w4]
+  refine ⟨by simp only [m]; ring, ?_, rfl, rfl⟩
+  simp only [m]
+  congr 1 <;> ring
+
+/-! ## Integrals over ℝ: the closed forms are the moments of the uniformly filled shapes -/
+section Integrals
+open intervalIntegral
+
+/-- `Real.sqrt` is a lawful square root: the theorems of this file apply to `ℝ`. -/
+theorem real_lawfulSqrt : LawfulSqrt Real.sqrt :=
+  ⟨fun x _ => Real.sqrt_nonneg x, fun _ hx => Real.mul_self_sqrt hx⟩
+
+/-- exact integral of a polynomial of degree ≤ 4 -/
+private theorem integral_poly4 (a b c0 c1 c2 c3 c4 : ℝ) :
+    ∫ y in a..b, (c0 + c1 * y + c2 * y ^ 2 + c3 * y ^ 3 + c4 * y ^ 4)
+      = c0 * (b - a) + c1 * (b ^ 2 - a ^ 2) / 2 + c2 * (b ^ 3 - a ^ 3) / 3 + c3 * (b ^ 4 - a ^ 4) / 4 + c4 * (b ^ 5 - a ^ 5) / 5 := by
+  have h1 : ∀ y : ℝ, c0 + c1 * y + c2 * y ^ 2 + c3 * y ^ 3 + c4 * y ^ 4 = c0 + c1 * y ^ 1 + c2 * y ^ 2 + c3 * y ^ 3 + c4 * y ^ 4 := by
+    intro y; ring
+  simp only [h1]
+  rw [integral_add, integral_add, integral_add, integral_add] <;> try (apply Continuous.intervalIntegrable; fun_prop)
+  simp only [integral_const_mul, integral_const, integral_pow, smul_eq_mul]
+  ring
+
+/-- integrate a function that *is* a polynomial of degree ≤ 4 -/
+private theorem integral_eq_poly4 (f : ℝ → ℝ) (a b c0 c1 c2 c3 c4 : ℝ)
+    (hf : ∀ y, f y = c0 + c1 * y + c2 * y ^ 2 + c3 * y ^ 3 + c4 * y ^ 4) :
+    ∫ y in a..b, f y = c0 * (b - a) + c1 * (b ^ 2 - a ^ 2) / 2 + c2 * (b ^ 3 - a ^ 3) / 3 + c3 * (b ^ 4 - a ^ 4) / 4 + c4 * (b ^ 5 - a ^ 5) / 5 := by
+  rw [← integral_poly4]; congr 1; funext y; exact hf y
+
+/-- **Triangle, as an integral.**  With the parametrisation `x = a + u·e1 + v·e2`, `0 ≤ u ≤ 1`, `0 ≤ v ≤ 1-u` (Jacobian
+`|e1×e2|` = twice the area, so the uniform density of unit total mass is `2 du dv`), the second moment about the vertex
+`a` is `2 ∫₀¹ ∫₀^{1-u} |u e1 + v e2|² dv du`; it equals `Triangle::unit_angular_inertia`. -/
+theorem triangle_unit_inertia_is_integral (t : Triangle2 ℝ) :
+    letI := fieldNum ℝ Real.sqrt
+    triUnitInertia t =
+      2 * ∫ u in (0:ℝ)..1, ∫ v in (0:ℝ)..(1 - u),
+        ((u * (t.b.x - t.a.x) + v * (t.c.x - t.a.x)) ^ 2 + (u * (t.b.y - t.a.y) + v * (t.c.y - t.a.y)) ^ 2) := by
+  rw [triangle_unit_inertia_about_a]
+  set e1x := t.b.x - t.a.x; set e1y := t.b.y - t.a.y; set e2x := t.c.x - t.a.x; set e2y := t.c.y - t.a.y
+  have inner : ∀ u : ℝ, (∫ v in (0:ℝ)..(1 - u), ((u * e1x + v * e2x) ^ 2 + (u * e1y + v * e2y) ^ 2))
+      = (e1x ^ 2 + e1y ^ 2) * u ^ 2 * (1 - u) + (e1x * e2x + e1y * e2y) * u * (1 - u) ^ 2 + (e2x ^ 2 + e2y ^ 2) * (1 - u) ^ 3 / 3 := by
+    intro u
+    rw [integral_eq_poly4 _ 0 (1 - u) ((e1x ^ 2 + e1y ^ 2) * u ^ 2) (2 * (e1x * e2x + e1y * e2y) * u) (e2x ^ 2 + e2y ^ 2) 0 0 (by intro v; ring)]
+    ring
+  simp only [inner]
+  rw [integral_eq_poly4 _ 0 1 ((e2x ^ 2 + e2y ^ 2) / 3) ((e1x * e2x + e1y * e2y) - (e2x ^ 2 + e2y ^ 2))
+    ((e1x ^ 2 + e1y ^ 2) - 2 * (e1x * e2x + e1y * e2y) + (e2x ^ 2 + e2y ^ 2))
+    (-(e1x ^ 2 + e1y ^ 2) + (e1x * e2x + e1y * e2y) - (e2x ^ 2 + e2y ^ 2) / 3) 0 (by intro u; ring)]
+  simp only [V2.normSq, V2.dot, V2.sub, e1x, e1y, e2x, e2y]
+  ring
+
+/-- **Rectangle, as an integral**: `∫_{-hx}^{hx} ∫_{-hy}^{hy} (x² + y²) dy dx` is the inertia of `from_cuboid` per unit density. -/
+theorem cuboid2_inertia_is_integral (ρ : ℝ) (he : V2 ℝ) (hρ : 0 ≤ ρ) (hx : 0 ≤ he.x) (hy : 0 ≤ he.y) :
+    letI := fieldNum ℝ Real.sqrt
+    inertiaOf (fromCuboid2 ρ he) = ρ * ∫ x in (-he.x)..he.x, ∫ y in (-he.y)..he.y, (x ^ 2 + y ^ 2) ∧
+    massOf (fromCuboid2 ρ he) = ρ * ∫ _x in (-he.x)..he.x, ∫ _y in (-he.y)..he.y, (1 : ℝ) := by
+  obtain ⟨c1, _, c3⟩ := cuboid2_spec Real.sqrt real_lawfulSqrt ρ he hρ hx hy
+  have inner : ∀ x : ℝ, (∫ y in (-he.y)..he.y, (x ^ 2 + y ^ 2)) = 2 * he.y * x ^ 2 + 2 * he.y ^ 3 / 3 := by
+    intro x
+    rw [integral_eq_poly4 _ (-he.y) he.y (x ^ 2) 0 1 0 0 (by intro y; ring)]; ring
+  simp only [inner]
+  have e1 : (∫ x in (-he.x)..he.x, (2 * he.y * x ^ 2 + 2 * he.y ^ 3 / 3)) = _ :=
+    integral_eq_poly4 _ (-he.x) he.x (2 * he.y ^ 3 / 3) 0 (2 * he.y) 0 0 (by intro x; ring)
+  rw [e1]
+  simp only [integral_const, smul_eq_mul]
+  rw [c1, c3]
+  constructor <;> ring
+
+/-- **Ball, as a solid of revolution** (disc slices of radius `√(r²−y²)`): `from_ball` has the mass `ρ ∫ π ρ(y)² dy`, the
+axial inertia `ρ ∫ (π/2) ρ(y)⁴ dy` and the transverse inertia `ρ ∫ (π/4 ρ(y)⁴ + π ρ(y)² y²) dy`. -/
+theorem ball3_is_solid_of_revolution (ρ r : ℝ) (hρ : 0 ≤ ρ) (hr : 0 ≤ r) :
+    letI := fieldNum ℝ Real.sqrt
+    massOf3 (fromBall3 Real.pi ρ r) = ρ * ∫ y in (-r)..r, Real.pi * (r ^ 2 - y ^ 2) ∧
+    (inertiaOf3 (fromBall3 Real.pi ρ r)).y = ρ * ∫ y in (-r)..r, Real.pi / 2 * (r ^ 2 - y ^ 2) ^ 2 ∧
+    (inertiaOf3 (fromBall3 Real.pi ρ r)).x = ρ * ∫ y in (-r)..r, (Real.pi / 4 * (r ^ 2 - y ^ 2) ^ 2 + Real.pi * (r ^ 2 - y ^ 2) * y ^ 2) ∧
+    (inertiaOf3 (fromBall3 Real.pi ρ r)).z = (inertiaOf3 (fromBall3 Real.pi ρ r)).x := by
+  obtain ⟨b1, b2, _, _⟩ := ball3_spec Real.sqrt real_lawfulSqrt Real.pi ρ r Real.pi_pos.le hρ hr
+  rw [b1, b2]
+  have e1 : (∫ y in (-r)..r, Real.pi * (r ^ 2 - y ^ 2)) = _ :=
+    integral_eq_poly4 _ (-r) r (Real.pi * r ^ 2) 0 (-Real.pi) 0 0 (by intro y; ring)
+  have e2 : (∫ y in (-r)..r, Real.pi / 2 * (r ^ 2 - y ^ 2) ^ 2) = _ :=
+    integral_eq_poly4 _ (-r) r (Real.pi / 2 * r ^ 4) 0 (-Real.pi * r ^ 2) 0 (Real.pi / 2) (by intro y; ring)
+  have e3 : (∫ y in (-r)..r, (Real.pi / 4 * (r ^ 2 - y ^ 2) ^ 2 + Real.pi * (r ^ 2 - y ^ 2) * y ^ 2)) = _ :=
+    integral_eq_poly4 _ (-r) r (Real.pi / 4 * r ^ 4) 0 (Real.pi * r ^ 2 / 2) 0 (-3 * Real.pi / 4) (by intro y; ring)
+  rw [e1, e2, e3]
+  refine ⟨by ring, by ring, by ring, by first | rfl | trivial⟩
+
+/-- **Cylinder, as a solid of revolution** (disc slices of radius `r`, `y ∈ [-hh, hh]`). -/
+theorem cylinder_is_solid_of_revolution (ρ hh r : ℝ) (hρ : 0 ≤ ρ) (hh0 : 0 ≤ hh) (hr : 0 ≤ r) :
+    letI := fieldNum ℝ Real.sqrt
+    massOf3 (fromCylinder Real.pi ρ hh r) = ρ * ∫ _y in (-hh)..hh, Real.pi * r ^ 2 ∧
+    (inertiaOf3 (fromCylinder Real.pi ρ hh r)).y = ρ * ∫ _y in (-hh)..hh, Real.pi / 2 * r ^ 4 ∧
+    (inertiaOf3 (fromCylinder Real.pi ρ hh r)).x = ρ * ∫ y in (-hh)..hh, (Real.pi / 4 * r ^ 4 + Real.pi * r ^ 2 * y ^ 2) ∧
+    (inertiaOf3 (fromCylinder Real.pi ρ hh r)).z = (inertiaOf3 (fromCylinder Real.pi ρ hh r)).x := by
+  obtain ⟨b1, b2, _, _⟩ := cylinder_spec Real.sqrt real_lawfulSqrt Real.pi ρ hh r Real.pi_pos.le hρ hh0 hr
+  rw [b1, b2]
+  have e3 : (∫ y in (-hh)..hh, (Real.pi / 4 * r ^ 4 + Real.pi * r ^ 2 * y ^ 2)) = _ :=
+    integral_eq_poly4 _ (-hh) hh (Real.pi / 4 * r ^ 4) 0 (Real.pi * r ^ 2) 0 0 (by intro y; ring)
+  rw [e3]
+  simp only [integral_const, smul_eq_mul]
+  refine ⟨by ring, by ring, by ring, by first | rfl | trivial⟩
+
+/-- **Cone, as a solid of revolution**: apex at `y = +hh`, base of radius `r` at `y = -hh`, slice radius
+`ρ(y) = r (hh − y)/(2hh)`.  Mass, the `y` of the centre of mass (first moment / volume `= -hh/2`), the axial inertia and the
+transverse inertia **about the centre of mass** are the slicing integrals. -/
+theorem cone_is_solid_of_revolution (ρ hh r : ℝ) (hρ : 0 ≤ ρ) (hh0 : 0 < hh) (hr : 0 ≤ r) :
+    letI := fieldNum ℝ Real.sqrt
+    let rad : ℝ → ℝ := fun y => r * (hh - y) / (2 * hh)
+    massOf3 (fromCone Real.pi ρ hh r) = ρ * ∫ y in (-hh)..hh, Real.pi * rad y ^ 2 ∧
+    (fromCone Real.pi ρ hh r).com.y * (∫ y in (-hh)..hh, Real.pi * rad y ^ 2) = ∫ y in (-hh)..hh, y * (Real.pi * rad y ^ 2) ∧
+    (inertiaOf3 (fromCone Real.pi ρ hh r)).y = ρ * ∫ y in (-hh)..hh, Real.pi / 2 * rad y ^ 4 ∧
+    (inertiaOf3 (fromCone Real.pi ρ hh r)).x =
+      ρ * ∫ y in (-hh)..hh, (Real.pi / 4 * rad y ^ 4 + Real.pi * rad y ^ 2 * (y - (fromCone Real.pi ρ hh r).com.y) ^ 2) ∧
+    (inertiaOf3 (fromCone Real.pi ρ hh r)).z = (inertiaOf3 (fromCone Real.pi ρ hh r)).x := by
+  intro rad
+  obtain ⟨b1, b2, b3, _⟩ := cone_spec Real.sqrt real_lawfulSqrt Real.pi ρ hh r Real.pi_pos.le hρ hh0.le hr
+  rw [b1, b2, b3]
+  have hne : hh ≠ 0 := hh0.ne'
+  set k := r / (2 * hh) with hk
+  have hrad : ∀ y, rad y = k * hh - k * y := by intro y; simp only [rad, hk]; field_simp
+  simp only [hrad]
+  have e1 : (∫ y in (-hh)..hh, Real.pi * (k * hh - k * y) ^ 2) = _ :=
+    integral_eq_poly4 _ (-hh) hh (Real.pi * k ^ 2 * hh ^ 2) (-2 * Real.pi * k ^ 2 * hh) (Real.pi * k ^ 2) 0 0 (by intro y; ring)
+  have e2 : (∫ y in (-hh)..hh, y * (Real.pi * (k * hh - k * y) ^ 2)) = _ :=
+    integral_eq_poly4 _ (-hh) hh 0 (Real.pi * k ^ 2 * hh ^ 2) (-2 * Real.pi * k ^ 2 * hh) (Real.pi * k ^ 2) 0 (by intro y; ring)
+  have e3 : (∫ y in (-hh)..hh, Real.pi / 2 * (k * hh - k * y) ^ 4) = _ :=
+    integral_eq_poly4 _ (-hh) hh (Real.pi / 2 * k ^ 4 * hh ^ 4) (-2 * Real.pi * k ^ 4 * hh ^ 3) (3 * Real.pi * k ^ 4 * hh ^ 2)
+      (-2 * Real.pi * k ^ 4 * hh) (Real.pi / 2 * k ^ 4) (by intro y; ring)
+  have e4 : (∫ y in (-hh)..hh, (Real.pi / 4 * (k * hh - k * y) ^ 4 + Real.pi * (k * hh - k * y) ^ 2 * (y - (⟨0, -hh / 2, 0⟩ : V3 ℝ).y) ^ 2)) = _ :=
+    integral_eq_poly4 _ (-hh) hh (Real.pi / 4 * k ^ 4 * hh ^ 4 + Real.pi * k ^ 2 * hh ^ 4 / 4)
+      (-Real.pi * k ^ 4 * hh ^ 3 + Real.pi * k ^ 2 * hh ^ 3 / 2) (3 * Real.pi / 2 * k ^ 4 * hh ^ 2 - 3 * Real.pi * k ^ 2 * hh ^ 2 / 4)
+      (-Real.pi * k ^ 4 * hh - Real.pi * k ^ 2 * hh) (Real.pi / 4 * k ^ 4 + Real.pi * k ^ 2) (by intro y; ring)
+  rw [e1, e2, e3, e4]
+  have hr' : r = 2 * hh * k := by simp only [hk]; field_simp
+  rw [hr']
+  refine ⟨by ring, by ring, by ring, by ring, by first | rfl | trivial⟩
+
+/-- **Why `3r/8` is the 3-D value and `4r/(3π)` the 2-D one** (the capsule end-cap offsets): the centroid of a hemisphere of
+radius `r` is at `∫₀^r y·π(r²−y²) dy / (2πr³/3) = 3r/8` above its base, and the centroid of a half-disc at
+`∫_{-r}^{r} (r²−x²)/2 dx / (πr²/2) = 4r/(3π)` (chord slices: `∫₀^{√(r²−x²)} y dy = (r²−x²)/2`). -/
+theorem cap_centroid_offsets (r : ℝ) (hr : 0 < r) :
+    (∫ y in (0:ℝ)..r, y * (Real.pi * (r ^ 2 - y ^ 2))) / (2 * Real.pi * r ^ 3 / 3) = 3 * r / 8 ∧
+    (∫ x in (-r)..r, (r ^ 2 - x ^ 2) / 2) / (Real.pi * r ^ 2 / 2) = 4 * r / (3 * Real.pi) := by
+  have hp := Real.pi_pos
+  have e1 : (∫ y in (0:ℝ)..r, y * (Real.pi * (r ^ 2 - y ^ 2))) = _ :=
+    integral_eq_poly4 _ 0 r 0 (Real.pi * r ^ 2) 0 (-Real.pi) 0 (by intro y; ring)
+  have e2 : (∫ x in (-r)..r, (r ^ 2 - x ^ 2) / 2) = _ :=
+    integral_eq_poly4 _ (-r) r (r ^ 2 / 2) 0 (-1 / 2) 0 0 (by intro y; ring)
+  rw [e1, e2]
+  constructor <;> field_simp <;> ring
+
+end Integrals
+
+/-! ## Non-vacuity: the hypotheses of the theorems above are satisfiable on concrete non-trivial inputs (over ℝ, where
+`Real.sqrt` is lawful), and the two documented counter-examples evaluated through the theorems -/
+
+/-- the unit right triangle is non-degenerate -/
+example : cross (⟨⟨0, 0⟩, ⟨1, 0⟩, ⟨0, 1⟩⟩ : Triangle2 ℝ) ≠ 0 := by norm_num [cross]
+
+/-- unit right triangle, density 1: the corrected `from_triangle` reports `1/18`, the pinned one `1/6` -/
+example :
+    letI := fieldNum ℝ Real.sqrt
+    inertiaOf (fromTriangle 1 (⟨⟨0, 0⟩, ⟨1, 0⟩, ⟨0, 1⟩⟩ : Triangle2 ℝ)) = 1 / 18 ∧
+    inertiaOf (fromTrianglePinned 1 (⟨⟨0, 0⟩, ⟨1, 0⟩, ⟨0, 1⟩⟩ : Triangle2 ℝ)) = 1 / 6 := by
+  have hnd : cross (⟨⟨0, 0⟩, ⟨1, 0⟩, ⟨0, 1⟩⟩ : Triangle2 ℝ) ≠ 0 := by norm_num [cross]
+  obtain ⟨h1, _, h3⟩ := from_triangle_spec Real.sqrt real_lawfulSqrt 1 one_pos _ hnd
+  have hp := from_triangle_pinned_overestimates Real.sqrt real_lawfulSqrt 1 zero_le_one (⟨⟨0, 0⟩, ⟨1, 0⟩, ⟨0, 1⟩⟩ : Triangle2 ℝ)
+  have hc := triangle_center_eq Real.sqrt (⟨⟨0, 0⟩, ⟨1, 0⟩, ⟨0, 1⟩⟩ : Triangle2 ℝ)
+  have e3 : inertiaOf (@fromTriangle ℝ (fieldNum ℝ Real.sqrt) 1 ⟨⟨0, 0⟩, ⟨1, 0⟩, ⟨0, 1⟩⟩) = 1 / 18 := by
+    rw [h3]; norm_num [cross, sumSqSides]
+  refine ⟨e3, ?_⟩
+  rw [hp, e3, h1, hc]
+  norm_num [cross, V2.sub, V2.normSq, V2.dot]
+
+/-- the 2×6 box as two triangles, density 1: inertia 40 (the pinned tree reports 160) -/
+example :
+    letI := fieldNum ℝ Real.sqrt
+    inertiaOf (fromTrimeshTris 1 ([⟨⟨0, 0⟩, ⟨2, 0⟩, ⟨2, 6⟩⟩, ⟨⟨0, 0⟩, ⟨2, 6⟩, ⟨0, 6⟩⟩] : List (Triangle2 ℝ))) = 40 := by
+  have := (trimesh_rectangle Real.sqrt real_lawfulSqrt (1:ℝ) 2 6 one_pos two_pos (by norm_num)).2.2.1
+  rw [this]; norm_num
+
+/-- hypotheses of `sub_add_cancel` / `add_moments` are satisfiable -/
+example : (0:ℝ) ≤ (⟨⟨1, 2⟩, 1 / 2, 1 / 3⟩ : MP2 ℝ).invMass ∧ (1:ℝ) / 8388608 ≤ massOf (⟨⟨1, 2⟩, 1 / 2, 1 / 3⟩ : MP2 ℝ) ∧
+    (1:ℝ) / 8388608 ≤ inertiaOf (⟨⟨1, 2⟩, 1 / 2, 1 / 3⟩ : MP2 ℝ) := by
+  norm_num [massOf, inertiaOf]
+
+/-- a non-identity unit rotation for `transformBy_covariant` -/
+example : ((3:ℝ) / 5) * (3 / 5) + (4 / 5) * (4 / 5) = 1 := by norm_num
+
+/-- the unit square seen from its centre: hypotheses of `convex_polygon_closed_form` -/
+example : SeesCCW (⟨1 / 2, 1 / 2⟩ : V2 ℝ) (cyclicPairs (⟨0, 0⟩ : V2 ℝ) [⟨0, 0⟩, ⟨1, 0⟩, ⟨1, 1⟩, ⟨0, 1⟩]) ∧
+    shoelace (cyclicPairs (⟨0, 0⟩ : V2 ℝ) [⟨0, 0⟩, ⟨1, 0⟩, ⟨1, 1⟩, ⟨0, 1⟩]) ≠ 0 := by
+  constructor
+  · intro e he
+    simp only [cyclicPairs, List.mem_cons, List.not_mem_nil, or_false] at he
+    rcases he with rfl | rfl | rfl | rfl <;> norm_num [cr]
+  · norm_num [shoelace, cyclicPairs, cr]
 
 end C13
